@@ -4,6 +4,7 @@
 Byte-exactness of the reconstructed file is value-level and not decided."""
 from .. import validation
 from ..engine import Ctx, LIB_CRATES
+from . import specconst
 from ..facts import callee, op_local, op_place
 from ..mirutil import Defs, find_path_edges
 from . import fieldrange
@@ -270,6 +271,90 @@ def rule_status(ctx):
         ctx.ok(rid, "reconstruct-needs-data", "reconstruction starts only on the Data edge of jbrd()", nontrivial=True, fn=g)
 
 
+RECON_ADT = "jxl_jbr::reconstruct::JpegBitstreamReconstructor"
+MARKER_STATE = {"is_progressive": "SOFn", "restart_interval": "DRI", "dc_tables": "DHT", "ac_tables": "DHT"}
+
+
+def rule_markerstate(ctx):
+    """state the JPEG syntax ties to a marker is unset until that marker is replayed"""
+    rid = "R-JBR-MARKERSTATE"
+    ctx.rule(rid, "marker-scoped state of the reconstructor (progressive mode <- SOFn, restart interval <- DRI, Huffman tables <- DHT) is "
+                  "created unset (constant false / None, independent of the header) and is written only while replaying markers "
+                  "(process_next), at least once each: a segment that precedes its marker in the file is written without that state, "
+                  "as in the original JPEG")
+    jbr = ctx.prog.crate("jxl_jbr")
+    from ..facts import place_fields, op_const
+    cons = None
+    for f in jbr.fn_list:
+        for b, blk in enumerate(f.blocks):
+            if blk[2]:
+                continue
+            for st in blk[0]:
+                if st[0] == "=" and st[2][0] == "agg" and st[2][1][0] == "adt" and st[2][1][1] == RECON_ADT:
+                    cons = (f, st)
+    adt = jbr.adts.get(RECON_ADT)
+    if cons is None or adt is None:
+        ctx.anchor_missing(rid, RECON_ADT + " construction")
+        return
+    f, st = cons
+    ctx.seen(f)
+    defs = Defs(f)
+    names = [x[0] for x in adt["variants"][0]["fields"]]
+
+    def unset(o, depth=0):
+        if depth > 6:
+            return False
+        k = op_const(o)
+        if k is not None:
+            return "v" in k and int(k["v"]) == 0
+        l = op_local(o)
+        d = defs.single(l) if l is not None else None
+        if not d or d[2] != "assign":
+            return False
+        rv = d[3][2]
+        if rv[0] == "use":
+            return unset(rv[1], depth + 1)
+        if rv[0] == "agg" and rv[1][0] == "adt" and rv[1][1] == "core::option::Option" and rv[1][2] == "None":
+            return True
+        if rv[0] == "agg" and rv[1][0] == "array":
+            return all(unset(x, depth + 1) for x in rv[2])
+        if rv[0] == "repeat":
+            return unset(rv[1], depth + 1)
+        return False
+
+    for fld, marker in MARKER_STATE.items():
+        if fld not in names:
+            ctx.anchor_missing(rid, "field " + fld)
+            continue
+        o = st[2][2][names.index(fld)]
+        if unset(o):
+            ctx.ok(rid, "created-unset:" + fld, "constant false/None at construction", nontrivial=True, fn=f)
+        else:
+            ctx.bad(rid, "created-unset:" + fld, "the reconstructor is created with `%s` already set (it must stay unset until the %s marker "
+                    "is replayed): segments written before that marker differ from the original JPEG" % (fld, marker), fn=f, pos=st[3])
+    writers = {}
+    for g in jbr.fn_list:
+        for b, blk in enumerate(g.blocks):
+            if blk[2]:
+                continue
+            for s2 in blk[0]:
+                if s2[0] != "=":
+                    continue
+                for n, a in place_fields(s2[1]):
+                    if a == RECON_ADT and n in MARKER_STATE:
+                        writers.setdefault(n, set()).add(g.path)
+    for fld, marker in MARKER_STATE.items():
+        w = writers.get(fld, set())
+        outside = sorted(x for x in w if not x.endswith("::process_next"))
+        if outside:
+            ctx.bad(rid, "written-outside-replay:" + fld, "`%s` is written outside the marker replay (%s)" % (fld, ", ".join(outside)), fn=f)
+        elif not w:
+            ctx.bad(rid, "never-armed:" + fld, "`%s` is never set while replaying markers: the %s marker has no effect on the following "
+                    "segments" % (fld, marker), fn=f)
+        else:
+            ctx.ok(rid, "armed-in-replay:" + fld, "set only in process_next", nontrivial=True, fn=f)
+
+
 def rule_state(ctx):
     """Jbrd box state machine: finalize of an uninitialised box is an error; data() is Some only when initialised"""
     rid = "R-JBR-STATE"
@@ -322,7 +407,9 @@ def main(pid, tier, repo=None):
         rule_reject(ctx)
         rule_status(ctx)
         rule_state(ctx)
+        rule_markerstate(ctx)
         fieldrange.run(ctx, LIB_CRATES, only_crates=("jxl_jbr", "jxl_oxide"))
+    specconst.run(ctx, pid)
     ctx.not_decided("byte equality of the reconstructed JPEG with the original (Huffman re-encoding, marker replay, integer chroma-from-luma, "
                     "padding bits): value-level")
     ctx.not_decided("panics that depend on relations between vectors of the reconstruction header (table indices vs table counts, "
